@@ -1,6 +1,7 @@
 package main
 
 import (
+	"os"
 	"path/filepath"
 	"regexp"
 	"sort"
@@ -95,3 +96,9 @@ func init() {
 func packageInitHook(e *sym.Exec, pkg *ssa.Package) {}
 
 func runSelftest() int { return 0 }
+
+func getenv(k string) string { return os.Getenv(k) }
+func writeFile(p, c string) {
+	os.MkdirAll(filepath.Dir(p), 0o755)
+	os.WriteFile(p, []byte(c), 0o644)
+}
